@@ -236,6 +236,8 @@ type Observed struct {
 }
 
 type runResult struct {
+	chains   [3][]cfgnorm.Lookup // rendered lookup chains: http host map, https host map, default-host map
+	defback  string              // default_backend of _front_http
 	objs     []client.Object
 	valid    map[string]bool // ingress ns/name -> IsValidIngress
 	observed []Observed
@@ -275,6 +277,32 @@ func run(o *hx.Opts, in Input) runResult {
 		return res
 	}
 	res.problems = append(res.problems, nf.Problems...)
+	// the map files as rendered, in the order of the lookup chains of the rendered frontends
+	if f := nf.Frontend("_front_http"); f != nil {
+		res.defback = f.DefaultBackend
+		for _, lk := range f.Lookups {
+			switch lk.Var {
+			case "req.backend":
+				res.chains[0] = append(res.chains[0], lk)
+			case "req.defaultbackend":
+				res.chains[2] = append(res.chains[2], lk)
+			}
+		}
+	}
+	if f := nf.Frontend("_front_https"); f != nil {
+		var def []cfgnorm.Lookup
+		for _, lk := range f.Lookups {
+			switch lk.Var {
+			case "req.hostbackend":
+				res.chains[1] = append(res.chains[1], lk)
+			case "req.defaultbackend":
+				def = append(def, lk)
+			}
+		}
+		if fmt.Sprint(lookupFiles(def)) != fmt.Sprint(lookupFiles(res.chains[2])) || f.DefaultBackend != res.defback {
+			res.problems = append(res.problems, "the two frontends differ in the default-host chain or the default_backend")
+		}
+	}
 	if os.Getenv("C03_DEBUG") != "" {
 		fmt.Println(nf.Text())
 		for _, l := range p.ConvLog.Take() {
@@ -299,6 +327,9 @@ func run(o *hx.Opts, in Input) runResult {
 				ob.Verdict = "redirect:" + r.Detail
 			}
 		}
+		if os.Getenv("C03_DEBUG") != "" {
+			fmt.Printf("route %v -> %s %s %v\n", rq, r.Verdict, r.Backend, r.ServerKeys())
+		}
 		if len(r.Notes) > 0 {
 			res.problems = append(res.problems, fmt.Sprintf("evaluator notes for %v: %v", rq, r.Notes))
 		}
@@ -308,7 +339,31 @@ func run(o *hx.Opts, in Input) runResult {
 	return res
 }
 
+func lookupFiles(ls []cfgnorm.Lookup) []string {
+	var out []string
+	for _, l := range ls {
+		out = append(out, l.File+" "+l.Method)
+	}
+	return out
+}
+
 // ---------------------------------------------------------------- Coq terms
+
+func coqChain(ls []cfgnorm.Lookup) string {
+	var files []string
+	for _, l := range ls {
+		meth := map[string]string{"str": "mS", "beg": "mB", "dir": "mD", "reg": "mR"}[l.Method]
+		if meth == "" {
+			meth = "mR"
+		}
+		var kvs []string
+		for _, e := range l.Entries {
+			kvs = append(kvs, hx.Tuple(hx.Str(e.Key), hx.Str(e.Value)))
+		}
+		files = append(files, hx.Tuple(meth, hx.Bool(l.Lower), hx.List(kvs)))
+	}
+	return hx.List(files)
+}
 
 func coqPortRef(name string, number int32) string {
 	pr := specPortRef(name, number)
@@ -432,9 +487,15 @@ func coqObs(ob Observed) string {
 func coqCase(id int, in Input, rr runResult) string {
 	var reqs []string
 	for i, rq := range in.Requests {
-		reqs = append(reqs, hx.Tuple(fmt.Sprintf("RQ %s %s %s", hx.Bool(rq.HTTPS), hx.Str(rq.Host), hx.Str(rq.Path)), coqObs(rr.observed[i])))
+		reqs = append(reqs, hx.Tuple(fmt.Sprintf("RQ %s %s %s", hx.Bool(rq.HTTPS), hx.Str(rq.Host), hx.Str(rq.Path)), coqObs(rr.observed[i]),
+			hx.Str(rr.observed[i].Backend)))
 	}
-	return fmt.Sprintf("{| cid := %s; ccl := %s;\n  creqs := %s |}", hx.N(id), coqCluster(in, rr), hx.List(reqs))
+	defback := "None"
+	if rr.defback != "" && rr.defback != "_error404" {
+		defback = "(Some " + hx.Str(rr.defback) + ")"
+	}
+	return fmt.Sprintf("{| cid := %s; ccl := %s;\n  chttp := %s;\n  chttps := %s;\n  cdefault := %s;\n  cdefback := %s;\n  creqs := %s |}",
+		hx.N(id), coqCluster(in, rr), coqChain(rr.chains[0]), coqChain(rr.chains[1]), coqChain(rr.chains[2]), defback, hx.List(reqs))
 }
 
 // ---------------------------------------------------------------- corpus
@@ -487,6 +548,19 @@ func corpus() []Input {
 		world.Pod("ns1", "svc3-t1", "svc3", "10.0.1.2", 8002, true),
 		world.Ingress("ns1", "ing1", 10, world.IngRule{Host: "a.example", Paths: []world.IngPath{
 			{Path: "/", Type: "Prefix", Service: "svc1", PortNum: 80}, {Path: "/n", Type: "Prefix", Service: "svc3", PortNum: 80}}})))
+	// witness of C03_maps_agree_refuted: /api ImplementationSpecific and /api Prefix on one host (plus / Prefix).
+	// The request /api is ambiguous (left unjudged: C04 leaves the order of equal-length rules
+	// unspecified); the real maps answer the begin rule (svc1), like the model of the generator.
+	out = append(out, mk("tie: /api begin and /api prefix on one host (witness of C03_maps_agree_refuted)", "", false,
+		[]Req{{false, "a.example", "/api"}, {false, "a.example", "/api/x"}, {false, "a.example", "/other"}},
+		world.Service("ns1", "svc1", world.SvcPort{Name: "http", Port: 80, TargetPort: intstr.FromInt(8080)}),
+		world.Endpoints("ns1", "svc1", world.EpPort{Name: "http", Port: 8080, Ready: []string{"10.0.0.1"}}),
+		world.Service("ns1", "svc2", world.SvcPort{Name: "http", Port: 80, TargetPort: intstr.FromInt(8080)}),
+		world.Endpoints("ns1", "svc2", world.EpPort{Name: "http", Port: 8080, Ready: []string{"10.0.0.2"}}),
+		world.Ingress("ns1", "ing1", 10, world.IngRule{Host: "a.example", Paths: []world.IngPath{
+			{Path: "/api", Type: "ImplementationSpecific", Service: "svc1", PortNum: 80},
+			{Path: "/api", Type: "Prefix", Service: "svc2", PortNum: 80},
+			{Path: "/", Type: "Prefix", Service: "svc2", PortNum: 80}}})))
 	// --default-backend-service whose service is otherwise only used by a TLS host, ssl-redirect on
 	tlsIng := world.Ingress("ns1", "ing1", 10, world.IngRule{Host: "t.example", Paths: []world.IngPath{{Path: "/", Type: "Prefix", Service: "svc1", PortNum: 80}}})
 	tlsIng.Spec.TLS = []networking.IngressTLS{{Hosts: []string{"t.example"}}}
